@@ -294,6 +294,9 @@ func genCase(t *rapid.T) Case {
 	used := map[string]bool{}
 	for i := 0; i < n; i++ {
 		cl := Class{Pkg: rapid.SampledFrom(pkgs).Draw(t, "pkg")}
+		if rarely(t, 11, "defaultPackage") {
+			cl.Pkg = "" // a class of the unnamed package: no package declaration
+		}
 		stem := rapid.SampledFrom(classStems).Draw(t, "stem")
 		kind := rapid.IntRange(0, 6).Draw(t, "classKind")
 		switch {
@@ -419,7 +422,7 @@ func genCase(t *rapid.T) Case {
 		for j, other := range c.Classes {
 			if other.Kind == "interface" && rarely(t, 1, fmt.Sprintf("implements%d_%d", i, j)) {
 				cl.Implements = other.Name
-				if other.Pkg != cl.Pkg {
+				if other.Pkg != cl.Pkg && other.Pkg != "" {
 					cl.Imports = []string{other.Pkg + "." + other.Name}
 				}
 				break
@@ -580,7 +583,9 @@ func render(cl Class) string {
 	if cl.Tight {
 		eq = "="
 	}
-	sb.WriteString("package " + cl.Pkg + ";\n\n")
+	if cl.Pkg != "" {
+		sb.WriteString("package " + cl.Pkg + ";\n\n")
+	}
 	sb.WriteString("import java.util.List;\nimport java.util.Map;\nimport org.springframework.web.bind.annotation.*;\n")
 	for _, imp := range cl.Imports {
 		sb.WriteString("import " + imp + ";\n")
@@ -820,7 +825,7 @@ func fileTree(c Case, seq []int) map[string]string {
 func fileName(c Case, pos, idx int) string {
 	cl := c.Classes[idx]
 	if c.Maven {
-		return fmt.Sprintf("m%02d/src/main/java/%s/%s.java", pos, strings.ReplaceAll(cl.Pkg, ".", "/"), cl.Name)
+		return filepath.ToSlash(filepath.Join(fmt.Sprintf("m%02d/src/main/java", pos), strings.ReplaceAll(cl.Pkg, ".", "/"), cl.Name+".java"))
 	}
 	return fmt.Sprintf("f%02d_%s.java", pos, cl.Name)
 }
@@ -1283,6 +1288,7 @@ func classify(c Case) pbt.Verdict {
 		mark(labels, cl.Controller != "" && len(cl.Imports) > 0, "controller_implements_project_interface")
 		mark(labels, cl.Controller != "" && cl.Dto != "", "second_class_in_controller_file_"+cl.Dto)
 		mark(labels, cl.ClassMods != "", "class_not_plain_public")
+		mark(labels, cl.Pkg == "" && cl.Controller != "", "controller_in_unnamed_package")
 	}
 	mark(labels, c.Maven, "maven_layout")
 	mark(labels, len(c.Prefixes) > 0, "aggregate_prefixes")
@@ -1311,7 +1317,7 @@ func classify(c Case) pbt.Verdict {
 
 func init() {
 	pbt.SetProperty("C12")
-	pbt.Describe("rapid-generated Spring-style projects of 1-6 types, one public type per file (flat directory or mNN/src/main/java/<package>/ layout), any file order: controllers (@RestController / @Controller, bare or with a bean name argument, then optionally @RequestMapping(\"/b\"), @RequestMapping(value = \"/b\" [, produces = ...]) or a class-level mapping that gives no path), classes without controller annotation (none, @Service, @Component, @ControllerAdvice, @RestControllerAdvice, @FeignClient ..., now and then with a class-level @RequestMapping) and interfaces whose methods nevertheless carry mapping annotations, handlers with @Get/@Post/@Put/@DeleteMapping with path (also \"\" and a path without leading slash), without path (bare, (), or only produces=/consumes=... pairs) and with value = \"/p\", @RequestMapping(value = \"/p\", method = RequestMethod.X | X by static import | {RequestMethod.X}) with the pairs in either order and a further pair first, in the middle or last, 0-4 parameters (plain, @PathVariable with and without name, @RequestParam(...), @RequestHeader, @Valid, @RequestBody with and without @Valid / final / (required = false) in both orders, at any position), further annotations before and after the mapping annotation (@ResponseBody, @ResponseStatus(..), @PreAuthorize(..), @ApiOperation(value = ..) ...), further type annotations before, between and after controller annotation and class-level mapping, non-handler methods (plain, @Override, @MessageMapping & co., now and then with a @RequestBody parameter) and annotated fields interleaved, overloaded handler names, two handlers with the same verb and path, handler bodies with calls, lambdas, an anonymous class or annotated locals, extends/implements clauses (also of an interface of the project), a second package-private class before or after the controller in its file, optional field and constructor, modifiers other than public, annotations and signature on one line, two layouts. Every file is validated with the shipped parser (a rejection aborts the run as a harness bug). Oracle: list of (verb, base+path, body type without blanks, package, class, method) by construction, compared as a multiset with JavaApiApp.AnalysisPath fed by the identifier and full passes as cmd/api.go does (sub-check api) and with coca_reporter/apis.json of `coca analysis` + `coca api -f [-c] [-s] [-a PREFIX] [-r PKG]` (sub-check cli; api.csv must show the entries of apis.json row by row, those under PREFIX with -a); metamorphic clause: the entries of every controller are identical in the whole project, alone, and in random sub-projects with other file orders; sub-check seq: 2-4 scans of the whole project and of sub-projects one after the other in one process without resetting package state: every scan returns the list of the project scanned and no list returned earlier changes; FilterApiByPrefix on the returned list keeps exactly the entries under the prefix, everything for the empty prefix, and does not change the list it is given. Non-trivial = at least one controller with and one without class-level base path in the project; distinct = hash of the description.",
+	pbt.Describe("rapid-generated Spring-style projects of 1-6 types, one public type per file (flat directory or mNN/src/main/java/<package>/ layout), any file order, now and then a class of the unnamed package: controllers (@RestController / @Controller, bare or with a bean name argument, then optionally @RequestMapping(\"/b\"), @RequestMapping(value = \"/b\" [, produces = ...]) or a class-level mapping that gives no path), classes without controller annotation (none, @Service, @Component, @ControllerAdvice, @RestControllerAdvice, @FeignClient ..., now and then with a class-level @RequestMapping) and interfaces whose methods nevertheless carry mapping annotations, handlers with @Get/@Post/@Put/@DeleteMapping with path (also \"\" and a path without leading slash), without path (bare, (), or only produces=/consumes=... pairs) and with value = \"/p\", @RequestMapping(value = \"/p\", method = RequestMethod.X | X by static import | {RequestMethod.X}) with the pairs in either order and a further pair first, in the middle or last, 0-4 parameters (plain, @PathVariable with and without name, @RequestParam(...), @RequestHeader, @Valid, @RequestBody with and without @Valid / final / (required = false) in both orders, at any position), further annotations before and after the mapping annotation (@ResponseBody, @ResponseStatus(..), @PreAuthorize(..), @ApiOperation(value = ..) ...), further type annotations before, between and after controller annotation and class-level mapping, non-handler methods (plain, @Override, @MessageMapping & co., now and then with a @RequestBody parameter) and annotated fields interleaved, overloaded handler names, two handlers with the same verb and path, handler bodies with calls, lambdas, an anonymous class or annotated locals, extends/implements clauses (also of an interface of the project), a second package-private class before or after the controller in its file, optional field and constructor, modifiers other than public, annotations and signature on one line, two layouts. Every file is validated with the shipped parser (a rejection aborts the run as a harness bug). Oracle: list of (verb, base+path, body type without blanks, package, class, method) by construction, compared as a multiset with JavaApiApp.AnalysisPath fed by the identifier and full passes as cmd/api.go does (sub-check api) and with coca_reporter/apis.json of `coca analysis` + `coca api -f [-c] [-s] [-a PREFIX] [-r PKG]` (sub-check cli; api.csv must show the entries of apis.json row by row, those under PREFIX with -a); metamorphic clause: the entries of every controller are identical in the whole project, alone, and in random sub-projects with other file orders; sub-check seq: 2-4 scans of the whole project and of sub-projects one after the other in one process without resetting package state: every scan returns the list of the project scanned and no list returned earlier changes; FilterApiByPrefix on the returned list keeps exactly the entries under the prefix, everything for the empty prefix, and does not change the list it is given. Non-trivial = at least one controller with and one without class-level base path in the project; distinct = hash of the description.",
 		"not generated (ambiguous expected value or outside the quantifier): bare class-level @RequestMapping, method-level @RequestMapping without method=, controller annotation after the class-level mapping, nested and local classes, handlers inherited from interfaces, several @RequestBody parameters, path= instead of value=, array-valued paths, several verbs in method={..}, path constants and concatenations, fully qualified annotation names",
 		"body type and nothing else is compared modulo white space",
 		"base path and method path are concatenated as written (no slash normalisation): the statement says 'base path followed by the method's path'",
